@@ -25,12 +25,15 @@ Proof.
 Qed.
 Print Assumptions C05_shutdown_completes_refuted.
 
-(* FULL: "afterwards no actor remains registered". REFUTED: an actor that spawns a child while handling its own
-   OnTerminated (the last handler of its life: it is already marked terminated and is unregistered right after) leaves
-   that child behind: nobody waits for it, it is still registered and alive when the system has closed.
-   (Open finding C05-spawn-in-own-onterminated-leaks-child.) The two earlier witnesses of this clause — a stale
+(* FULL: "Shutdown returns only after every actor has terminated, and afterwards no actor remains registered".
+   REFUTED: an actor that spawns a child while handling its own OnTerminated (the last handler of its life: it is
+   already marked terminated and is unregistered right after) creates an orphan nobody waits for. Since the repair of
+   ActorOf (a terminating / terminated parent stops the children it creates at once) the orphan no longer stays
+   registered for ever, but the closed signal — what Shutdown returns on — can still be set while the orphan is
+   registered and has handled nothing yet: the witness below stops right there.
+   (Open finding C05-spawn-in-own-onterminated-outlives-shutdown.) The earlier witnesses of this clause — a stale
    termination notice (address re-used, or a watch request answered before the spawn) making the parent forget a living
-   child — were repaired in the code and in the model (drop_child). *)
+   child; a child spawned after the children had been told to stop — were repaired in the code and in the model. *)
 Theorem C05_registry_empty_after_shutdown_refuted :
   exists roles ls s os, krun roles kinit ls = Some (s, os) /\ closed s = true /\ lookup 1 (registry s) <> None.
 Proof.
